@@ -108,9 +108,116 @@ def rule_globals(ctx, R):
     R.extra['mutable_globals'] = len(mutable)
 
 
+GROUPS = {
+    'hash': ['randomx_calculate_hash', 'randomx_calculate_hash_first', 'randomx_calculate_hash_next', 'randomx_calculate_hash_last'],
+    'vm-lifecycle': ['randomx_create_vm', 'randomx_destroy_vm', 'randomx_vm_set_cache', 'randomx_vm_set_dataset'],
+    'dataset-init': ['randomx_init_dataset'],
+}
+
+
+def rule_shared(ctx, R):
+    import taint
+    R.rule('RACE-SHARED', 'on the call graphs of the per-thread operations (hashing, VM create/destroy/re-bind, dataset initialisation; virtual and function-pointer calls resolved by type) no store, '
+           'memory intrinsic or writing external call has an address derived from a randomx_cache object, and none derived from a randomx_dataset object except the two range-confined '
+           'writes of dataset initialisation', min_instances=6)
+    M = irq.Module(ctx.ir())
+    for gname, entries in GROUPS.items():
+        T = taint.Taint(M, entries)
+        sinks = T.sinks()
+        ntainted = sum(1 for k, v in T.val.items() if v)
+        R.extra.setdefault('taint_groups', {})[gname] = dict(functions=len(T.reach), derived_values=ntainted, rounds=T.rounds, sinks=len(sinks))
+        if ntainted < 20:
+            raise AnalysisBroken('RACE-SHARED: group %s has only %d derived values: source typing failed' % (gname, ntainted))
+        nsites = sum(len(M.write_sites(M.fn[n])) for n in T.reach if M.fn[n]['defined'])
+        R.ok('%s: %d write sites in %d reachable functions examined' % (gname, nsites, len(T.reach)), 'call graph', detail='%d values derived from cache/dataset objects, %d derived writes' % (ntainted, len(sinks)))
+        if nsites < 50 and gname != 'dataset-init':
+            raise AnalysisBroken('RACE-SHARED: group %s has only %d write sites' % (gname, nsites))
+        allowed = 0
+        for f, i, kind, tags, desc in sinks:
+            inst = '%s: %s in %s' % (gname, kind, f['dem'][:100])
+            if gname == 'dataset-init' and tags == {'dataset'} and (f['name'] == 'randomx_init_dataset' or f['dem'].startswith('randomx::initDatasetItem(') or f['dem'].startswith('randomx::initDataset(')):
+                allowed += 1
+                R.ok(inst, i.get('loc', '?'), detail='write of the caller\'s own dataset items (range confined by RACE-RANGE)')
+                continue
+            R.violation(inst, i.get('loc', '?'), expected='no write through a pointer derived from shared %s' % '/'.join(sorted(tags)), found=desc)
+        if gname == 'dataset-init':
+            # positive control: the analysis must see the two legitimate dataset writes
+            R.check(allowed >= 2, 'dataset-init: derivation tracking sees the item writes', 'src/randomx.cpp', expected='>= 2 dataset-derived writes (memcpy in randomx_init_dataset, memcpy in initDatasetItem)', found=allowed)
+            # the indirect datasetInit call passes a dataset-derived destination
+            f = M.fn['randomx_init_dataset']
+            n_ic = 0
+            for i in M.insts(f):
+                if i['op'] in ('call', 'invoke') and 'icallee' in i and len(i['ops']) == 4:
+                    n_ic += 1
+            R.check(n_ic >= 3, 'dataset-init: indirect datasetInit calls', 'src/randomx.cpp', expected='>= 3', found=n_ic)
+        else:
+            # positive control: the cache binding is tracked through the VM object (field-based)
+            probe = [f for f in M.defined() if re.match(r'^randomx::InterpretedLightVm<.*>::datasetRead\(', f['dem'])]
+            okp = 0
+            for f in probe:
+                if f['name'] not in T.reach:
+                    continue
+                for i in M.insts(f):
+                    if i.get('callee') and 'initDatasetItem' in i['callee'] and T.tags_of(f['name'], i['ops'][0]):
+                        okp += 1
+            if gname == 'hash':
+                R.check(okp >= 4, 'hash: cache pointer tracked into InterpretedLightVm::datasetRead', 'src/vm_interpreted_light.cpp', expected='initDatasetItem(cachePtr, ..) argument is cache-derived in 4 instantiations', found=okp)
+    R.saw(config='K0')
+
+
+def rule_asm(ctx, R):
+    R.rule('RACE-ASM', 'the hand-written dataset initialiser (randomx_dataset_init .. ret) writes memory only through the output pointer (rsi) and the stack; no RIP-relative or absolute store; '
+           'so concurrent calls on disjoint ranges share no writable state', min_instances=8)
+    o = ctx.obj('x86')
+    ins = o.between('randomx_dataset_init', 'randomx_program_epilogue')
+    seen_ret = False
+    n = 0
+    for off, mn, ops, raw in ins:
+        if seen_ret:
+            break
+        if mn == 'ret':
+            seen_ret = True
+            continue
+        dst = ops.split(',')[0].strip() if ops else ''
+        writes_mem = '[' in dst and mn not in ('cmp', 'test', 'prefetchw', 'prefetcht0', 'prefetchnta', 'lea', 'call', 'jmp', 'push')
+        if mn == 'prefetchw':
+            n += 1
+            R.ok('%s %s' % (mn, ops), 'src/jit_compiler_x86_static.S+%#x' % off, detail='prefetch hint, no architectural write')
+            continue
+        if writes_mem:
+            n += 1
+            m = re.search(r'\[(\w+)', dst)
+            base = m.group(1) if m else '?'
+            R.check(base in ('rsi', 'rsp'), '%s %s' % (mn, ops), 'src/jit_compiler_x86_static.S+%#x' % off, expected='store based on rsi (output) or rsp (stack)', found=base)
+    R.check(seen_ret and n >= 8, 'dataset_init body scanned', 'src/jit_compiler_x86_static.S', expected='8 item stores + ret', found='%d memory writes, ret %s' % (n, seen_ret))
+
+
+def rule_ownbuf(ctx, R):
+    import astq
+    R.rule('RACE-OWNBUF', 'every compiled VM owns its JitCompiler (and code buffer) by value; no JitCompiler / VM object has static storage; the cache-owned compiler is only written by initCacheCompile', min_instances=3)
+    F = astq.Facts(ctx, 'K0')
+    owners = [r for r in F.records(r'^randomx::CompiledVm<') if any(re.search(r'JitCompiler\w*$', fl['ty']) for fl in r['fields'])]
+    R.check(len(owners) == 8, 'CompiledVm instantiations hold the compiler by value', 'src/vm_compiled.hpp', expected=8, found=len(owners))
+    M = irq.Module(ctx.ir())
+    bad = [g['dem'] for g in M.m['globals'] if re.search(r'JitCompiler|randomx_vm|class\.randomx::.*Vm', g['ty']) and not g['name'].startswith('_ZT')]
+    R.check(not bad, 'no global compiler / VM object', 'whole library', expected='none', found=bad or 'none')
+    # cache->jit->generate* only under initCacheCompile
+    gens = []
+    for f in F.all_funcs():
+        if not f.get('body'):
+            continue
+        for c in astq.calls(f['body']):
+            if re.match(r'^generate(SuperscalarHash|DatasetInitCode|Program)', c.get('name', '')) and '->jit' in astq.show(c.get('this')):
+                gens.append(f['q'])
+    R.check(set(gens) == {'randomx::initCacheCompile'}, 'cache-owned compiler is written only during cache initialisation', 'src/dataset.cpp', expected=['randomx::initCacheCompile'], found=sorted(set(gens)))
+
+
 def run(ctx, R):
     import astq
     from rules import dsinit
     rule_globals(ctx, R)
     F = astq.Facts(ctx, 'K0')
     dsinit.rule_range(ctx, R, F)
+    rule_shared(ctx, R)
+    rule_asm(ctx, R)
+    rule_ownbuf(ctx, R)
